@@ -450,6 +450,9 @@ func C16(r *h.Run) {
 		nextFresh := 100
 		for start := 0; start < n; {
 			end := start + 1 + rng.Intn(2)
+			if start == 0 {
+				end = 1 + (k/4)%3
+			}
 			if end > n {
 				end = n
 			}
@@ -479,20 +482,38 @@ func C16(r *h.Run) {
 				return connect.NewResponse(&bv{}), s.Err()
 			}, hopts...))
 		var callErr error
+		var written []int
+		mutate := (k/12)%2 == 0 // (side, length of the first group and this: every combination within 24 runs)
 		p := safely(func() {
+			cu := connect.NewClient[bv, bv](&h.LocalClient{Handler: mux}, "http://verif.local/verif.Svc/Unary", copts...)
+			cs := connect.NewClient[bv, bv](&h.LocalClient{Handler: mux}, "http://verif.local/verif.Svc/Stream", copts...)
+			for j := range stack {
+				if stack[j] != orig[j] {
+					written = append(written, j)
+				}
+			}
+			if mutate {
+				// the client and the handlers exist: what the caller does with ITS slice from now
+				// on (re-using it for the next client, clearing it) is no business of theirs
+				for j := range stack {
+					stack[j] = &logIcpt{id: 900 + j, log: log}
+					if j%2 == 1 {
+						stack[j] = nil
+					}
+				}
+				in["afterwards"] = "the caller overwrites every element of its slice (other interceptors, nil) before the first call"
+			}
 			if strings.HasSuffix(side, "unary") {
-				c := connect.NewClient[bv, bv](&h.LocalClient{Handler: mux}, "http://verif.local/verif.Svc/Unary", copts...)
-				_, callErr = c.CallUnary(context.Background(), connect.NewRequest(&bv{Value: []byte("x")}))
+				_, callErr = cu.CallUnary(context.Background(), connect.NewRequest(&bv{Value: []byte("x")}))
 			} else {
-				c := connect.NewClient[bv, bv](&h.LocalClient{Handler: mux}, "http://verif.local/verif.Svc/Stream", copts...)
-				st := c.CallClientStream(context.Background())
+				st := cs.CallClientStream(context.Background())
 				callErr = st.Send(&bv{Value: []byte("a")})
 				if callErr == nil {
 					_, callErr = st.CloseAndReceive()
 				}
 			}
 		})
-		r.Eval("caller_slices", fmt.Sprint(side, desc))
+		r.Eval("caller_slices", fmt.Sprint(side, desc, mutate))
 		if p != nil || callErr != nil {
 			r.Fail(h.Failure{Key: "interceptors/panic", Family: "caller_slices", What: fmt.Sprint("panic or failed call: ", p, callErr), Input: in})
 			continue
@@ -502,11 +523,8 @@ func C16(r *h.Run) {
 		if !intsEq(enter, flat) {
 			r.Fail(h.Failure{Key: "interceptors/order", Family: "caller_slices", What: "groups taken as sub-slices of one caller-owned slice: the chain is not the flat concatenation in declaration order, each interceptor once", Input: in, Expected: flat, Actual: enter})
 		}
-		for j := range stack {
-			if stack[j] != orig[j] {
-				r.Fail(h.Failure{Key: "interceptors/caller-slice-written", Family: "caller_slices", What: fmt.Sprintf("building the client / handler overwrote element %d of the caller's slice", j), Input: in})
-				break
-			}
+		if len(written) > 0 {
+			r.Fail(h.Failure{Key: "interceptors/caller-slice-written", Family: "caller_slices", What: fmt.Sprintf("building the client / handler overwrote element %d of the caller's slice", written[0]), Input: in})
 		}
 	}
 
